@@ -61,13 +61,12 @@ def numParts (len : Nat) : Nat := (len + partSize - 1) / partSize
 def chunk (data : List UInt8) (i : Nat) : List UInt8 := (data.drop (partSize * i)).take partSize
 
 /-- The messages `delta_chunks(tick, delta_tick = base, data, crc)` yields, in iteration order.
-The field called `delta_tick` in the messages is the *relative* value `tick - base`, computed with
-a checked `-` (overflow panics in the dev profile). -/
+The field called `delta_tick` in the messages is the *relative* value `tick - base`; it is computed
+with `wrapping_sub` (fix of D8; the original code used a checked `-`). -/
 def deltaChunks (tick base : Int) (data : List UInt8) (crc : Int) : Outcome (List Msg) :=
-  let dt := tick - base
+  let dt := wrapSub tick base
   let n := numParts data.length
-  if ¬ inI32 dt then .panic "delta_chunks:tick - delta_tick"
-  else if ¬ n ≤ 2147483647 then .panic "delta_chunks:assert_i32"
+  if ¬ n ≤ 2147483647 then .panic "delta_chunks:assert_i32"
   else if n = 0 then .ok [.empty tick dt]
   else if n = 1 then .ok [.single tick dt crc data]
   else .ok ((List.range n).map fun (i : Nat) => Msg.snap tick dt (n : Int) (i : Int) crc (chunk data i))
@@ -190,9 +189,9 @@ def Receiver.snap (r : Receiver) (tick dt numParts part crc : Int) (data : List 
   else if ¬ (0 ≤ part ∧ part < numParts) then (r, .error .invalidPart, [])
   else
     let (r', cur) := r.enter tick dt numParts crc
-    -- the attribute comparison, as coded: wire value (relative) against stored value (absolute)
+    -- the attribute comparison (since the fix of D7 the wire's relative value is converted first)
     let ws : List Warning :=
-      if dt ≠ cur.deltaTick ∨ numParts ≠ cur.numParts ∨ crc ≠ cur.crc then
+      if wrapSub tick dt ≠ cur.deltaTick ∨ numParts ≠ cur.numParts ∨ crc ≠ cur.crc then
         [Warning.differingAttributes]
       else []
     let k := part.toNat
